@@ -11,7 +11,7 @@ RULE = ("ALL lists of length 1..4 (quick) / 1..5 (thorough) made of cheap valid 
         "Non-trivial: a run containing at least one malformed row; distinct = distinct (input list, batch size, source form).")
 ASSUMPTIONS = ["oracle answers recorded from the real run (see C03)", "CSV/JSON readers and the str/dict conversion are maps (checked by running all four source forms)"]
 TRUSTED = ["pandas/csv/json readers as exercised"]
-VALID = ["C>>C", "CC>>CC", "CCO>>CCO", "[CH3:1][OH:2]>>[CH3:1][OH:2]", "CC(=O)O.[OH-]>>CC(=O)[O-].O"]
+VALID = ["C>>C", "CC(=O)C>>CC(O)C", "CCOC(C)=O.O>>CC(O)=O", "[CH3:1][OH:2]>>[CH3:1][OH:2]", "CC(=O)O.[OH-]>>CC(=O)[O-].O", "CCO>>CC=O", "CC>>CC"]
 MAL = {"unparsable": "XX>>C", "unparsable-product": "C>>C1CC", "no-separator": "C", "reagent-style": "CCO>CC>CCO", "two-separators": "C>>C>>C",
        "empty-string": "", "empty-side": "CC>>", "missing-value": None}
 
@@ -35,6 +35,12 @@ def check(ctx, form, inputs, bs, rows, err, kinds):
                 l, p = s.split(">>"); l2, p2 = (r["input_reaction"] or ">>").split(">>")[:2]
                 if pipe.canon_multiset(l) != pipe.canon_multiset(l2) or pipe.canon_multiset(p) != pipe.canon_multiset(p2):
                     ok = False
+                # "each row describing that input": the returned reaction still contains the input's molecules
+                out = r.get("reaction") or ""
+                if ok and out.count(">>") == 1 and pipe.closed_shell(s):
+                    ol, op = out.split(">>")
+                    if (pipe.canon_multiset(l) - pipe.canon_multiset(ol)) or (pipe.canon_multiset(p) - pipe.canon_multiset(op)):
+                        ctx.fail("row-describes-another-input", case, {"input": s, "returned_reaction": out})
     if ok:
         return
     # classify: which mechanism lost / shifted rows
@@ -120,11 +126,13 @@ def run(ctx):
         sub = [(["C>>C", "XX>>C", "CC>>CC"], ["unparsable"]), (["CCO>>CCO", "C>>C", "C>>C1CC", "CC>>CC"], ["unparsable-product"])] + rng.sample(sub, 12 if ctx.quick() else 60)
         for k, (inputs, kinds) in enumerate(sub):
             recs = [{"reaction": s, "tag": "tag%d" % i} for i, s in enumerate(inputs)]
+            if k % 2 == 1:      # every other case: the user's rows carry their own 1-based "id" and a "name" column
+                recs = [{"id": i + 1, "name": "n%d" % i, "reaction": s, "tag": "tag%d" % i} for i, s in enumerate(inputs)]
             pj = os.path.join(tmp, "in%d.json" % k); pc = os.path.join(tmp, "in%d.csv" % k)
             with open(pj, "w") as f:
                 json.dump(recs, f)
             with open(pc, "w", newline="") as f:
-                w = csv.DictWriter(f, fieldnames=["reaction", "tag"]); w.writeheader(); w.writerows(recs)
+                w = csv.DictWriter(f, fieldnames=list(recs[0].keys())); w.writeheader(); w.writerows(recs)
             for form, src in (("list-of-dict", recs), ("json-dataset", Dataset(pj)), ("csv-dataset", Dataset(pc))):
                 bs = rng.choice([None, 1, 2, len(inputs)])
                 try:
@@ -139,7 +147,7 @@ def run(ctx):
             if inputs[0] and inputs[0].count(">>") == 1 and pipe.balanced(inputs[0]) is not None:
                 out = os.path.join(tmp, "out%d.csv" % k)
                 try:
-                    impute(pc, out, "reaction", ["tag"], 0, n_jobs=1, batch_size=None)
+                    impute(pc, out, "reaction", ["tag"] + (["id", "name"] if "id" in recs[0] else []), 0, n_jobs=1, batch_size=None)
                     with open(out, newline="") as f:
                         got = list(csv.DictReader(f))
                     err = None
@@ -155,6 +163,10 @@ def run(ctx):
                     l2, p2 = (g["input_reaction"].split(">>") + [""])[:2]
                     if src_s.count(">>") != 1 or pipe.canon_multiset(l) != pipe.canon_multiset(l2) or pipe.canon_multiset(p) != pipe.canon_multiset(p2):
                         mis.append({"tag": g.get("tag"), "tag_belongs_to": src_s, "row_describes": g["input_reaction"]})
+                if "id" in recs[0]:
+                    for g in got:
+                        if g.get("tag", "").startswith("tag") and str(g.get("id")) != str(int(g["tag"][3:]) + 1):
+                            mis.append({"tag": g.get("tag"), "id_written": g.get("id")})
                 if mis:
                     ctx.fail("cli-passthrough-misaligned", {"form": "cli", "inputs": inputs}, {"misaligned": mis[:3]})
                 elif err is None and len(got) != len(inputs):
